@@ -11,7 +11,7 @@ it sits under an if, a conditional expression or a loop that may run zero times.
 Caches (hash maps looked up by key) are excluded: they are the subject of the cache rules."""
 from facts import AnalysisBroken
 from prog import walk, kids, short, access_kind
-from rules.common import strip_casts, const_of
+from rules.common import strip_casts, const_of, range_for_consts
 
 
 def member_events(p, root, record, skip_types=('HashMap',), max_depth=8):
@@ -31,6 +31,7 @@ def member_events(p, root, record, skip_types=('HashMap',), max_depth=8):
         return reach_cache[fid]
     events = []
     stack = []
+    bound = {}                 # loop variables of loops over constant lists / small constant ranges: id -> current value
 
     def slot_of(f, n):
         """member node -> (member, indices); walks up the subscript chain"""
@@ -40,11 +41,43 @@ def member_events(p, root, record, skip_types=('HashMap',), max_depth=8):
         while par is not None and (par['k'] in ('ImplicitCastExpr', 'ParenExpr') or
                                    (par['k'] == 'ArraySubscriptExpr' and strip_casts(kids(par)[0]) is strip_casts(cur))):
             if par['k'] == 'ArraySubscriptExpr':
-                c = const_of(strip_casts(kids(par)[1]))
+                ie = strip_casts(kids(par)[1])
+                c = const_of(ie)
+                if c is None:
+                    c = index_value(ie)
                 idx.append(c if c is not None else '*')
             cur = par
             par = f.parent(cur)
         return (short(n['ref']['n']), tuple(idx)), cur
+
+    def index_value(e):
+        """an index built from unrolled loop variables (c, !c, make_piece(c, k), k + 1, ...): its value now, else None"""
+        e = strip_casts(e)
+        if e is None:
+            return None
+        c = const_of(e)
+        if c is not None:
+            return c
+        r = e.get('ref') or {}
+        if r.get('k') in ('Local', 'Parm') and r.get('id') in bound and bound[r['id']][0] == r.get('n'):
+            return bound[r['id']][1]
+        k = e['k']
+        if k in ('CXXFunctionalCastExpr', 'CStyleCastExpr', 'CXXStaticCastExpr', 'ParenExpr', 'ImplicitCastExpr') and kids(e):
+            return index_value(kids(e)[-1])
+        if k == 'BinaryOperator' and e.get('op') in ('+', '-', '*'):
+            a, b = index_value(kids(e)[0]), index_value(kids(e)[1])
+            if a is None or b is None:
+                return None
+            return a + b if e['op'] == '+' else a - b if e['op'] == '-' else a * b
+        if k in ('CXXOperatorCallExpr', 'UnaryOperator') and e.get('op') == '!' and kids(e):
+            a = index_value(kids(e)[-1])
+            return None if a is None else (1 - a if a in (0, 1) else None)
+        if k == 'CallExpr' and (e.get('callee') or {}).get('n') == 'engine::make_piece' and len(kids(e)) == 3:
+            a, b = index_value(kids(e)[1]), index_value(kids(e)[2])
+            if a in (0, 1) and b is not None:
+                ke = {v: k_ for k_, v in p.enum('engine::PieceKind').items()}
+                return p.enum('engine::Piece').get(('W_' if a == 0 else 'B_') + ke.get(b, '?'))
+        return None
 
     def out_param_set(f, arg):
         """the member is bound to a reference parameter of a callee whose first statement on that parameter is an
@@ -131,6 +164,18 @@ def member_events(p, root, record, skip_types=('HashMap',), max_depth=8):
             else:
                 for b in ks[1:]:
                     stmt_events(f, b, True, depth)
+        elif k == 'CXXForRangeStmt' and range_for_consts(st) is not None:
+            var, vals, body = range_for_consts(st)
+            for v in vals:
+                bound[var['id']] = (var.get('name'), v)
+                stmt_events(f, body, cond, depth)
+            bound.pop(var['id'], None)
+        elif k == 'ForStmt' and small_range(f, st) is not None:
+            vid, name, lo, hi, body = small_range(f, st)
+            for v in range(lo, hi):
+                bound[vid] = (name, v)
+                stmt_events(f, body, cond, depth)
+            bound.pop(vid, None)
         elif k in ('ForStmt', 'WhileStmt', 'CXXForRangeStmt', 'DoStmt'):
             ch = st.get('ch') or []
             body = ch[-1] if ch else None
@@ -157,6 +202,29 @@ def member_events(p, root, record, skip_types=('HashMap',), max_depth=8):
         else:
             # conditional expressions inside: their arms are conditional
             expr_events(f, st, cond, depth)
+    def small_range(f, st):
+        """for (T i = C0; i < C1; ++i) with constants and at most 16 turns, i not written in the body"""
+        from rules.common import counting_for, for_init_const
+        cf = counting_for(f, st)
+        if not cf:
+            return None
+        lo = for_init_const(st)
+        hi = const_of(strip_casts(cf[1]))
+        if lo is None or hi is None:
+            return None
+        if cf[2] == '<=':
+            hi += 1
+        elif cf[2] not in ('<', '!='):
+            return None
+        if not (0 <= hi - lo <= 16):
+            return None
+        body = (st.get('ch') or [None])[-1]
+        if body is None or any(x['k'] in ('BreakStmt', 'ContinueStmt', 'ReturnStmt') for x in walk(body)):
+            return None
+        decl = [x for x in walk(st['ch'][0]) if x['k'] == 'VarDecl'] if st['ch'][0] is not None else []
+        name = decl[0].get('name') if len(decl) == 1 else None
+        return cf[0], name, lo, hi, body
+
     stack.append(root.id)
     stmt_events(root, root.body, False, 0)
     return members, events
@@ -186,19 +254,26 @@ def check_slots(events):
             continue            # judged through its concrete slots where there are any
         first = None
         read_at = None
+        read_star = False
         for kind, sl, cond, site in events:
             if kind == 'X' or sl is None or not overlaps(sl, s):
                 continue
             if first is None:
                 first = (kind, cond, site, sl)
                 used = any(k2 in ('R', 'A') and overlaps(s2, s) for k2, s2, c2, t2 in events)
+                if used and '*' in sl[1]:
+                    raise AnalysisBroken('EVALSEQ: %s is first touched at %s through an index the rule cannot resolve to a constant' % (s[0], site))
                 if used and not (kind == 'W' and not cond and '*' not in sl[1]):
                     bad.append(('a', s, site, 'the first thing an evaluation does with %s%s is %s' % (
                         s[0], ''.join('[%s]' % i for i in s[1]),
                         {'R': 'read it', 'A': 'accumulate into it', 'W': 'set it only on some paths' if cond else 'set it through a run-time index'}[kind])))
             if kind == 'R' and read_at is None:
                 read_at = site
+                read_star = '*' in sl[1]
             elif kind in ('W', 'A') and read_at is not None:
+                if '*' in sl[1] or read_star:
+                    raise AnalysisBroken('EVALSEQ: %s is written at %s after a read, one of them through an index the rule cannot resolve '
+                                         'to a constant' % (s[0], site))
                 bad.append(('b', s, site, '%s%s is changed at %s after it was read at %s in the same evaluation' % (
                     s[0], ''.join('[%s]' % i for i in s[1]), site, read_at)))
                 break
